@@ -251,6 +251,23 @@ func runC13(tw *TraceWriter, id int, c *Case) {
 			r := renderFile(f)
 			return r.status + ":" + string(r.out)
 		}
+		// a list whose items all render nothing is rendered with a File; THEN one of its (placeholder) items gets a token
+		// and the same File renders it again: the item is there now
+		if g.Name != "custom" || true {
+			ph := jen.Null()
+			items := []jen.Code{jen.Null(), ph, nil}
+			if lst := ctor(items); lst != nil {
+				f := jen.NewFile("main")
+				f.NoFormat = true
+				f.Add(jen.Id("h").Add(lst))
+				renderFile(f)
+				ph.Id("late")
+				r2 := renderFile(f)
+				if r2.status == "nil" && !strings.Contains(string(r2.out), "late") && again == "same" {
+					again = "placeholder"
+				}
+			}
+		}
 		shared := NewBuilder().Codes(g.Items)
 		// ... the same for Add(items...): two statements started from ONE slice that has spare capacity, each continued
 		// with tokens of its own - the first one still ends in its own tokens
